@@ -39,6 +39,7 @@ func main() {
 		vlib.Group{Name: "large", Gen: genLarge},
 		vlib.Group{Name: "rawlong", Gen: genRawLong},
 		vlib.Group{Name: "same-object", Gen: genSame},
+		vlib.Group{Name: "inplace-to", Gen: genInPlace},
 	)
 	vlib.Main("C04", groups...)
 }
